@@ -2261,6 +2261,11 @@ impl Interpreter {
                             if let Some(env_data) = env_ref.as_environment() {
                                 let var_key = VarKey(binding_name.cheap_clone());
                                 if let Some(binding) = env_data.bindings.get(&var_key) {
+                                    // An imported binding that is exported again
+                                    // (`import { x } from "./a"; export { x }`) is a live view too
+                                    if let Some(ref import_binding) = binding.import_binding {
+                                        return self.resolve_import_binding(import_binding);
+                                    }
                                     return Ok(binding.value.clone());
                                 }
                             }
@@ -4188,6 +4193,11 @@ impl Interpreter {
                 if let Some(env_data) = env_ref.as_environment() {
                     let key = VarKey(binding_name.cheap_clone());
                     if let Some(binding) = env_data.bindings.get(&key) {
+                        // An imported binding that is exported again is read through its import
+                        if let Some(ref import_binding) = binding.import_binding {
+                            let value = self.resolve_import_binding(import_binding)?;
+                            return Ok(Guarded::unguarded(value));
+                        }
                         return Ok(Guarded::unguarded(binding.value.clone()));
                     }
                 }
